@@ -108,12 +108,15 @@ def Dec.signed (d : Dec) : Int := if d.neg then -(d.m : Int) else (d.m : Int)
 
 /-- `|b − a| ≤ ½ · 10^(L − p + 1)` where `10^L ≤ |a| < 10^(L+1)` (`a ≠ 0`), i.e. `b` is within half a
     unit of the `p`-th significant digit of `a`; for `a = 0` it demands `b = 0`.  Exponent spreads
-    above `limit` are rejected without evaluating a power of ten (the values are then far apart). -/
-def withinHalfUlp (a b : Dec) (p : Nat) : Bool :=
+    above `limit` are rejected without evaluating a power of ten (the values are then far apart).
+    In `decimalMode` (`Decimal` only removes digits after the dot) the unit is never coarser than the
+    units place: `min (L − p + 1) 0`. -/
+def withinHalfUlp (decimalMode : Bool) (a b : Dec) (p : Nat) : Bool :=
   let a := a.norm; let b := b.norm
   if a.m == 0 then b.m == 0 else
   if b.m == 0 then false else
-  let u : Int := a.e + (numDigits a.m : Int) - (p : Int)      -- exponent of the unit
+  let u0 : Int := a.e + (numDigits a.m : Int) - (p : Int)      -- exponent of the unit
+  let u : Int := if decimalMode then min u0 0 else u0
   let lo := min (min a.e b.e) u
   let hi := max (max a.e b.e) u
   if hi - lo > 100000 then false else
@@ -125,7 +128,8 @@ def withinHalfUlp (a b : Dec) (p : Nat) : Bool :=
 /-- which clauses of C08 fail for (input, precision, output); `0` = the property holds.
     bit 0: input not in the grammar (nothing is claimed then), bit 1: output not in the grammar
     (for `decimalMode`: the grammar without exponent), bit 2: value (exact for `prec ≤ 0`, half a unit
-    of the last retained significant digit otherwise), bit 3: output longer than input. -/
+    of the last retained significant digit otherwise — for `decimalMode` that digit is never left of the
+    units place, because `Decimal` only removes digits after the dot), bit 3: output longer than input. -/
 def failMask (decimalMode : Bool) (inp : List Char) (prec : Int) (out : List Char) : Nat :=
   let gin := if decimalMode then isDecimal inp else isNumber inp
   if !gin then 1 else
@@ -135,7 +139,7 @@ def failMask (decimalMode : Bool) (inp : List Char) (prec : Int) (out : List Cha
     match decOf inp, decOf out with
     | some a, some b =>
       if prec ≤ 0 then (if a == b then 0 else 4)
-      else (if withinHalfUlp a b prec.toNat then 0 else 4)
+      else (if withinHalfUlp decimalMode a b prec.toNat then 0 else 4)
     | _, _ => 4
   let b3 := if out.length ≤ inp.length then 0 else 8
   b1 + b2 + b3
@@ -165,16 +169,11 @@ def WithinHalfUnit (s : List Char) (p : Int) (v w : Rat) : Prop :=
   | none => w = v
   | some L => v - (1 / 2) * (10 : Rat) ^ (L - p + 1) ≤ w ∧ w ≤ v + (1 / 2) * (10 : Rat) ^ (L - p + 1)
 
-/-! ## known findings -/
-
-/-- trigger of the known findings K-C08-1/2: a precision is applied (`0 < prec`) to a lexeme whose
-    exponent is within `length + 4` of the int64 range.  There the Go code adds digit counts to
-    `origExp` with wrap-around, or leaves through the exponent-overflow exit after the precision branch
-    has already incremented a digit in place. -/
-def trigExpNear (s : List Char) (prec : Int) : Bool :=
-  decide (0 < prec) &&
-    match parse s with
-    | some p => decide (9223372036854775808 ≤ p.exp.natAbs + s.length + 4)
-    | none => false
+/-- the bound for `Decimal`: only digits after the dot may be removed, so the last retained digit is the
+    `p`-th significant one or the units digit, whichever is finer: `|w − v| ≤ ½·10^(min (L−p+1) 0)` -/
+def WithinHalfUnitDec (s : List Char) (p : Int) (v w : Rat) : Prop :=
+  match leadExp s with
+  | none => w = v
+  | some L => v - (1 / 2) * (10 : Rat) ^ (min (L - p + 1) 0) ≤ w ∧ w ≤ v + (1 / 2) * (10 : Rat) ^ (min (L - p + 1) 0)
 
 end Verif.Spec.Num
